@@ -290,6 +290,36 @@ def h_stats(ctx, kinds, parts, order, ctag=''):
   ctx.witness('done')
 
 
+def h_stats_two_connections(ctx, order):
+  """two switches (two Connection objects) answer port-statistics requests in parts at the same time; order: string over 'a' / 'b' = the next part
+  arrives on connection A / B.  Each connection reassembles its own reply: one event per connection, after its final part, with exactly its own
+  entries in order - whatever the other connection receives in between (xids symbolic: they may coincide)."""
+  of01, of, sockA, conA = mkcon(ctx)
+  sockB = env.FakeSocket(eof=False); conB = of01.Connection(sockB); conB.ofnexus = Nexus(); conB.handlers = of01._default_handlers.handlers
+  cons = {'a': (sockA, conA), 'b': (sockB, conB)}
+  got = {'a': [], 'b': []}
+  for k in 'ab': cons[k][1].addListenerByName('PortStatsReceived', lambda e, k=k: got[k].append(e))
+  total = {k: order.count(k) for k in 'ab'}
+  xid = {k: ctx.int('xid_' + k, 0, 0xffffffff) for k in 'ab'}
+  seen = {'a': 0, 'b': 0}; sent = {'a': [], 'b': []}
+  base = {'a': 100, 'b': 200}
+  for ch in order:
+    seen[ch] += 1
+    no = base[ch] + seen[ch]
+    m = of.ofp_stats_reply(xid=xid[ch], type=4, body=[of.ofp_port_stats(port_no=no, rx_packets=ctx.int('rx_%s%d' % (ch, seen[ch]), 0, 0xffff))])
+    m.flags = 0 if seen[ch] == total[ch] else 1
+    sent[ch].append(no)
+    sock, con = cons[ch]
+    sock.feed(m.pack()); ctx.check('read', con.read() is True)
+    for k in 'ab':
+      evs = got[k]
+      done = seen[k] == total[k] and total[k] > 0
+      ctx.check('connection %s: aggregated event exactly when its own final part has arrived' % k.upper(), len(evs) == (1 if done else 0))
+      if done and len(evs) == 1:
+        ctx.check('connection %s: the event carries exactly its own entries in order' % k.upper(), [p.port_no for p in evs[0].stats] == sent[k])
+  ctx.witness('done')
+
+
 def obligations(tier):
   thorough = tier != 'quick'
   pc = [dict(ninit=a, nnotes=b) for a in (0, 1, 2) for b in ((0, 1, 2, 3) if not thorough else (0, 1, 2, 3, 4)) if a + b <= len(NAMES) and (thorough or a + b <= 4)]
@@ -319,6 +349,8 @@ def obligations(tier):
                max_decisions=20000, desc='port-status notifications inside the handshake window are applied (and announced) in arrival order'),
     Obligation('O2_stats', h_stats, st, witnesses=('done',), max_decisions=20000,
                desc='multipart stats reassembly: one event per request, after the final part, own entries in order'),
+    Obligation('O5_stats_two_connections', h_stats_two_connections, [dict(order=o) for o in ('abab', 'aabb', 'abba', 'aab', 'abaab')], witnesses=('done',), max_decisions=20000,
+               desc='two connections receiving multipart statistics replies at the same time: each reassembles its own'),
     Obligation('O3_stats_interleaved', h_stats, [dict(kinds=('flow', 'port'), parts=(2, 1), order='121', ctag='[interleaved] '),
                                                  dict(kinds=('flow', 'flow'), parts=(2, 2), order='1212', ctag='[interleaved] '),
                                                  dict(kinds=('port', 'table'), parts=(3, 2), order='12121', ctag='[interleaved] ')],
